@@ -98,6 +98,17 @@ Theorem c17_remove_withdraws : forall cfg ops c,
 Proof. exact remove_withdraws_l. Qed.
 Print Assumptions c17_remove_withdraws.
 
+(* a connection that closes while its report is being processed — after the
+   filters of shouldRecordObservation, at its listenAddrs() call, before the
+   manager's lock is taken — is not credited: the state is exactly the one
+   after the disconnect *)
+Theorem c17_close_during_observation_not_credited : forall cfg st c oa,
+  hook_fires cfg c oa = true ->
+  let st' := step cfg st (ObserveDuring c oa c) in
+  get Z.eqb c (cobs st') = None /\ zmem c (closed st') = true /\ st' = disconnect cfg st c.
+Proof. exact close_during_observation_l. Qed.
+Print Assumptions c17_close_during_observation_not_credited.
+
 (* AddrsFor: only addresses with at least [thresh] distinct observer groups;
    conversely (thresh >= 1) every such address is returned unless the answer
    is full and every returned address has at least as many observers *)
@@ -191,39 +202,51 @@ Proof. vm_compute. reflexivity. Qed.
 
 (* the monitor rejects: an address reported on the strength of one group twice *)
 Example monitor_rejects_repeated_group :
-  holds ex_cfg [(Observe 0 ex_obs, mkO [[]] []); (Observe 2 ex_obs, mkO [[5]] [(5, 0)])] = false.
+  holds ex_cfg [(Observe 0 ex_obs, mkO [[]] [] false); (Observe 2 ex_obs, mkO [[5]] [(5, 0)] false)] = false.
 Proof. vm_compute. reflexivity. Qed.
 
 (* ... an address kept after the connection that vouched for it was disconnected *)
 Example monitor_rejects_stale_after_disconnect :
-  holds ex_cfg [(Observe 0 ex_obs, mkO [[]] []); (Observe 1 ex_obs, mkO [[5]] [(5, 0)]);
-                (Disconnect 1, mkO [[5]] [(5, 0)])] = false.
+  holds ex_cfg [(Observe 0 ex_obs, mkO [[]] [] false); (Observe 1 ex_obs, mkO [[5]] [(5, 0)] false);
+                (Disconnect 1, mkO [[5]] [(5, 0)] false)] = false.
+Proof. vm_compute. reflexivity. Qed.
+
+(* ... a connection credited although it closed while its report was processed
+   (threshold 1 so that one observer is enough to see it) *)
+Example monitor_rejects_credit_after_close_during_observation :
+  holds (mkCfg 1 the_cap [(Some 0, 0)] [(Some 0, 0)] [mkConn (Some ex_tw) (R4 1)])
+        [(ObserveDuring 0 ex_obs 0, mkO [[5]] [(5, 0)] true)] = false.
+Proof. vm_compute. reflexivity. Qed.
+
+Example model_ignores_report_of_conn_closed_during_observation :
+  trace (mkCfg 1 the_cap [(Some 0, 0)] [(Some 0, 0)] [mkConn (Some ex_tw) (R4 1)]) init_state
+        [ObserveDuring 0 ex_obs 0] = [(ObserveDuring 0 ex_obs 0, mkO [[]] [] true)].
 Proof. vm_compute. reflexivity. Qed.
 
 (* ... a loopback report counted *)
 Example monitor_rejects_loopback_counted :
-  holds ex_cfg [(Observe 0 ex_obs, mkO [[]] []);
-                (Observe 1 (mkObs true false false (Some (mkTW 5 4 6))), mkO [[5]] [(5, 0)])] = false.
+  holds ex_cfg [(Observe 0 ex_obs, mkO [[]] [] false);
+                (Observe 1 (mkObs true false false (Some (mkTW 5 4 6))), mkO [[5]] [(5, 0)] false)] = false.
 Proof. vm_compute. reflexivity. Qed.
 
 (* ... four addresses for one local address, and a wrongly ordered answer *)
 Example monitor_rejects_four :
-  holds (mkCfg 0 the_cap [(Some 0, 0)] [(Some 0, 0)] []) [(MarkClosed 0, mkO [[1; 2; 3; 4]] [])] = false.
+  holds (mkCfg 0 the_cap [(Some 0, 0)] [(Some 0, 0)] []) [(MarkClosed 0, mkO [[1; 2; 3; 4]] [] false)] = false.
 Proof. vm_compute. reflexivity. Qed.
 
 Example monitor_rejects_wrong_order :
   holds (mkCfg 1 the_cap [(Some 0, 0)] [(Some 0, 0)]
                [mkConn (Some ex_tw) (R4 1); mkConn (Some ex_tw) (R4 2); mkConn (Some ex_tw) (R4 3)])
-        [(Observe 0 ex_obs, mkO [[5]] [(5, 0)]);
-         (Observe 1 ex_obs, mkO [[5]] [(5, 0)]);
-         (Observe 2 (mkObs false false false (Some (mkTW 7 4 6))), mkO [[7; 5]] [(7, 0); (5, 0)])] = false.
+        [(Observe 0 ex_obs, mkO [[5]] [(5, 0)] false);
+         (Observe 1 ex_obs, mkO [[5]] [(5, 0)] false);
+         (Observe 2 (mkObs false false false (Some (mkTW 7 4 6))), mkO [[7; 5]] [(7, 0); (5, 0)] false)] = false.
 Proof. vm_compute. reflexivity. Qed.
 
 (* and accepts the right one *)
 Example monitor_accepts_right_order :
   holds (mkCfg 1 the_cap [(Some 0, 0)] [(Some 0, 0)]
                [mkConn (Some ex_tw) (R4 1); mkConn (Some ex_tw) (R4 2); mkConn (Some ex_tw) (R4 3)])
-        [(Observe 0 ex_obs, mkO [[5]] [(5, 0)]);
-         (Observe 1 ex_obs, mkO [[5]] [(5, 0)]);
-         (Observe 2 (mkObs false false false (Some (mkTW 7 4 6))), mkO [[5; 7]] [(5, 0); (7, 0)])] = true.
+        [(Observe 0 ex_obs, mkO [[5]] [(5, 0)] false);
+         (Observe 1 ex_obs, mkO [[5]] [(5, 0)] false);
+         (Observe 2 (mkObs false false false (Some (mkTW 7 4 6))), mkO [[5; 7]] [(5, 0); (7, 0)] false)] = true.
 Proof. vm_compute. reflexivity. Qed.
